@@ -39,44 +39,20 @@ hash of (program IR, history)."
         return;
     }
     let tier = ctx.tier();
-    let n_prog = tier.pick(64, 1500);
-    let n_hist = tier.pick(8, 32);
-    let chunk = tier.pick(64, 250);
-    ctx.floor = tier.pick(40, 1000);
-    let mut rng = Rng::new(ctx.seed_for(SUB));
-    let mut cov = Coverage::default();
     let cfg = GenCfg::default();
-    let mut stats = SemStats::default();
-    let mut seen = BTreeSet::new();
-    let mut generated = 0u64;
-    let mut all_failures: Vec<Failure> = vec![];
-    let batch_name = format!("C21-{}", tier.name());
-    let mut remaining = n_prog;
-    while remaining > 0 {
-        let this = remaining.min(chunk);
-        remaining -= this;
-        let mut prepared = vec![];
-        while prepared.len() < this {
-            let prog = gen_prog(&mut rng, &cov, &cfg);
-            if !seen.insert(hash64(&prog)) {
-                continue;
-            }
-            generated += 1;
-            cov.note_prog(&prog);
+    let n_hist = tier.pick(8, 32);
+    drive(
+        ctx,
+        Drive { sub: SUB, batch: format!("C21-{}", tier.name()), n_prog: tier.pick(64, 1500), chunk: tier.pick(64, 250), floor: tier.pick(40, 1000) },
+        |rng, cov| {
+            let prog = gen_prog(rng, cov, &cfg);
             let scripts = (0..n_hist)
-                .map(|_| script_of_history(&gen_history(&mut rng, &prog.sources, 3, 8), Run::Tick))
+                .map(|_| script_of_history(&gen_history(rng, &prog.sources, 3, 8), Run::Tick))
                 .collect();
-            if let Some(p) = prepare(SemCase { prog, scripts }, &mut stats) {
-                note_roles(&mut cov, &p);
-                prepared.push(p);
-            }
-            if generated > (n_prog as u64) * 3 {
-                break;
-            }
-        }
-        let mut evals: Vec<(u64, bool, Vec<String>)> = vec![];
-        let fails = match run_prepared(&batch_name, &prepared, &mut stats, |_, si, p, _r| {
-            let h = hash64(&(&p.case.prog, &p.case.scripts[si]));
+            SemCase { prog, scripts, tags: vec![] }
+        },
+        nontrivial_c21,
+        |p, _si| {
             let mut classes = vec![];
             for n in &p.case.prog.nodes {
                 if n.op.is_stateful() {
@@ -85,7 +61,60 @@ hash of (program IR, history)."
             }
             classes.sort();
             classes.dedup();
-            evals.push((h, nontrivial_c21(p, si), classes));
+            classes
+        },
+    );
+}
+
+pub struct Drive {
+    pub sub: &'static str,
+    pub batch: String,
+    pub n_prog: usize,
+    pub chunk: usize,
+    pub floor: u64,
+}
+
+/// Generic driver for interpreter-oracle properties: generate cases, compile in chunks, compare,
+/// reduce + report failures, run the known-finding probes, fill the evidence extras.
+pub fn drive(
+    ctx: &mut Ctx,
+    d: Drive,
+    mut gen_case: impl FnMut(&mut Rng, &Coverage) -> SemCase,
+    nontrivial: impl Fn(&Prepared, usize) -> bool,
+    classes: impl Fn(&Prepared, usize) -> Vec<String>,
+) {
+    let tier = ctx.tier();
+    ctx.floor = d.floor;
+    let mut rng = Rng::new(ctx.seed_for(d.sub));
+    let mut cov = Coverage::default();
+    let mut stats = SemStats::default();
+    let mut seen = BTreeSet::new();
+    let mut generated = 0u64;
+    let mut all_failures: Vec<Failure> = vec![];
+    let mut remaining = d.n_prog;
+    let mut nt_by_class: std::collections::BTreeMap<String, u64> = Default::default();
+    while remaining > 0 {
+        let this = remaining.min(d.chunk);
+        remaining -= this;
+        let mut prepared = vec![];
+        let mut guard = 0;
+        while prepared.len() < this && guard < this * 30 {
+            guard += 1;
+            let case = gen_case(&mut rng, &cov);
+            if !seen.insert(hash64(&case.prog)) {
+                continue;
+            }
+            generated += 1;
+            cov.note_prog(&case.prog);
+            if let Some(p) = prepare(case, &mut stats) {
+                note_roles(&mut cov, &p);
+                prepared.push(p);
+            }
+        }
+        let mut evals: Vec<(usize, usize, u64, bool, Vec<String>)> = vec![];
+        let fails = match run_prepared(&d.batch, &prepared, &mut stats, |k, si, p, _r| {
+            let h = hash64(&(&p.case.prog, &p.case.scripts[si]));
+            evals.push((k, si, h, nontrivial(p, si), classes(p, si)));
         }) {
             Ok(f) => f,
             Err(e) => {
@@ -93,22 +122,31 @@ hash of (program IR, history)."
                 break;
             }
         };
-        for (h, nt, classes) in evals {
+        for (k, si, h, nt, cls) in evals {
             let mut obs = Obs::default();
             obs.nontrivial(nt);
-            for c in classes {
+            for c in cls {
+                if nt {
+                    *nt_by_class.entry(c.clone()).or_default() += 1;
+                }
                 obs.class(c);
             }
-            ctx.record(SUB, h, &obs, || serde_json::Value::Null);
+            let p = &prepared[k];
+            ctx.record(d.sub, h, &obs, || {
+                json!({"program": p.dfir, "script": crate::gen::script_wire(&p.case.scripts[si])})
+            });
         }
         all_failures.extend(fails);
         if !all_failures.is_empty() {
             break;
         }
     }
-    report_failures(ctx, SUB, &batch_name, all_failures, tier);
-    run_probes(ctx, &format!("{batch_name}-probes"), &mut stats);
+    report_failures(ctx, d.sub, &d.batch, all_failures, tier);
+    if ctx.prop() == "C21" {
+        run_probes(ctx, &format!("{}-probes", d.batch), &mut stats);
+    }
     ctx.extra.insert("coverage_table".into(), cov.to_json());
+    ctx.extra.insert("nontrivial_by_class".into(), json!(nt_by_class));
     ctx.extra.insert("pipeline".into(), stats_json(&stats));
     ctx.extra.insert("programs_generated".into(), json!(generated));
     conclude(ctx, &stats, generated);
@@ -134,14 +172,14 @@ pub fn report_failures(ctx: &mut Ctx, sub: &str, batch_name: &str, failures: Vec
             &f.mismatch.kind,
             rounds,
         );
-        let reduced = SemCase { prog: rp, scripts: vec![rs] };
+        let reduced = SemCase { prog: rp, scripts: vec![rs], tags: vec![] };
         // re-run the reduced case to get its own message / signature
         let mut obs = Obs::default();
         let fail = match run_single(&format!("{batch_name}-reduce"), &reduced, &mut obs) {
             Err(fl) if fl.sig.starts_with("mismatch:") => (fl, reduced),
             _ => (
                 Fail::new(sig0.clone(), describe(&f.case, f.script_idx, &f.mismatch)),
-                SemCase { prog: f.case.prog.clone(), scripts: vec![f.case.scripts[f.script_idx].clone()] },
+                SemCase { prog: f.case.prog.clone(), scripts: vec![f.case.scripts[f.script_idx].clone()], tags: vec![] },
             ),
         };
         let (mut fl, case) = fail;
